@@ -265,6 +265,9 @@ Gone == /\ r' = Dead /\ queue' = Msgs \ fin /\ held' = {}
         /\ UNCHANGED <<opt, now, restarts>>
 Exit == /\ At("done") /\ Gone /\ ProcessDeath
 Kill == /\ Alive /\ r.pc # "done" /\ Gone /\ ProcessDeath
+\* fsync reports an error (EIO; ENOSPC / EDQUOT on some filesystems): nothing was made durable, the tool logs FATAL and
+\* exits without acknowledging the batch -- the same step as a kill at that point, named because the harness injects it
+FsyncFails == /\ r.pc \in {"sy_fsync", "cl_fsync"} /\ Gone /\ ProcessDeath
 PowerLossStep == /\ epoch < MaxPower
                  /\ PowerLoss
                  /\ Gone
@@ -281,7 +284,7 @@ Next == \/ SelStop \/ SelTerm \/ SelHup \/ SelTick \/ \E m \in Msgs : SelMsg(m)
         \/ UfName \/ UfProbe
         \/ \E m \in Msgs : Deliver(m)
         \/ \E n \in ForeignNames : Foreign(n)
-        \/ Tick \/ SendHup \/ SendTerm \/ StopClose \/ Exit \/ Kill \/ PowerLossStep \/ Restart
+        \/ Tick \/ SendHup \/ SendTerm \/ StopClose \/ Exit \/ Kill \/ FsyncFails \/ PowerLossStep \/ Restart
 
 Spec == Init /\ [][Next]_vars
 
